@@ -645,6 +645,16 @@ def directed_cases():
         # creation window of repo.json: the very first two installs
         ("creation-window", [S([_inst(100, 1), _inst(101, 2)],
                                [(0, ("lock", "repo.json")), (1, "done"), (0, "done")])]),
+        # first installs into an empty store: the create-if-missing step of __addPackage runs outside the lock, after the
+        # other project has created and filled repo.json (all orders of two, one order of three)
+        ("first-installs-create-after-fill", [S([_inst(100, 1), _inst(101, 2)],
+                                                [(0, ("create", "repo.json")), (1, "done"), (0, "done")])]),
+        ("first-installs-create-create-fill", [S([_inst(100, 1), _inst(101, 2)],
+                                                 [(0, ("create", "repo.json")), (1, ("create", "repo.json")), (0, "done"),
+                                                  (1, "done")])]),
+        ("first-installs-three", [S([_inst(100, 1), _inst(101, 2), _inst(102, 3)],
+                                    [(0, ("create", "repo.json")), (1, ("create", "repo.json")), (2, "done"), (1, "done"),
+                                     (0, "done")]), F(_gc(False, True))]),
         # lost race at install: the loser links the package without being recorded as its user
         ("lost-race-unrecorded-user", [S([_inst(0, 1, True), _inst(1, 1, True)],
                                          [(0, ("verify",)), (1, ("verify",)), (0, "done"), (1, "done")]),
@@ -824,7 +834,7 @@ PC_HOOK = {
     "uOpen": ("open", "repo.json", "r"), "uLockRepo": ("lock", "repo.json", "sh"), "uOpenPkg": ("open", "pkg.json", "r+"),
     "uLockPkg": ("lock", "pkg.json", "ex"), "uClosePkg": ("unlocked", "pkg.json", "r+"), "iVerify": ("verify", None, None),
     "iRename": ("rename", "publish", None), "iAddOpen": ("open", "repo.json", "r+"), "iAddLock": ("lock", "repo.json", "ex"),
-    "iAddCreate": ("open", "repo.json", "x"), "iAddCreateLock": ("lock", "repo.json", "ex"),
+    "iAddCreate": ("open", "repo.json", "x"), "iAddTouch": ("create", "repo.json", None), "iAddCreateLock": ("lock", "repo.json", "ex"),
     "iAddClose": ("unlocked", "repo.json", None), "gOpen": ("open", "repo.json", "r+"), "gLock": ("lock", "repo.json", "ex"),
     "gScanOpen": ("open", "pkg.json", "r"), "gScanLock": ("lock", "pkg.json", "sh"), "gMove": ("rename", "collect", None),
     "gClose": ("unlocked", "repo.json", "r+"), "bUnlink": ("unlink", None, None), "bSymlink": ("symlink", None, None),
